@@ -26,4 +26,17 @@ theorem facts_close_decision_inputs :
 theorem facts_deadline_rearmed_before_every_handle :
     Martian.Generated.ProxySem.deadlineRearmedBeforeEveryHandle = true := by decide
 
+/-- The default `http.Transport` of `NewProxy` - the transport every relayed exchange runs on when
+the embedder installs none - is configured with exactly these fields: no HTTP/2 upgrade, the
+environment's proxy, two timeouts that do not touch a healthy exchange, content codings relayed
+untouched. In particular NO size limit of its own (`MaxResponseHeaderBytes`, `ReadBufferSize`, …), no
+connection cap and keep-alives on: C01 quantifies over header sets and message sizes without bound,
+and the model relays every complete origin response. A new field is a new decision about C01/C03 and
+must be looked at. -/
+theorem facts_default_transport_fields :
+    Martian.Generated.ProxySem.defaultTransportFields =
+      ["DisableCompression = true", "ExpectContinueTimeout = time.Second", "Proxy = http.ProxyFromEnvironment",
+       "TLSHandshakeTimeout = 10 * time.Second",
+       "TLSNextProto = make(map[string]func(string, *tls.Conn) http.RoundTripper)"] := by decide
+
 end Martian.Props.C01
